@@ -25,7 +25,7 @@ SCALE = 1024          # coefficient tokens handed to the Lean model: coef * SCAL
 SEG_LETTERS = set('CLOVFGJSbrkKxd')
 INV_OPC = {v: k for k, v in nlgen.OPC.items()}
 VARIADIC = ('sum', 'min', 'max')
-N_THEOREMS = 35
+N_THEOREMS = 38
 # vptr excluded: mp's CRTP base constructors downcast `this` before the derived object exists (flat/converter.h:51),
 # which UBSan's vptr check reports on every run; unrelated to this property
 SAN_FLAGS = ('-O1', '-g', '-fsanitize=address,undefined', '-fno-sanitize=vptr', '-fno-sanitize-recover=all')
@@ -1055,6 +1055,38 @@ def gen_crosscheck(ck, drv, trdir, cov=False):
 COVERAGE = os.environ.get('VERIF_COVERAGE') == '1'
 
 
+def refine_failing(ck, failing):
+    """Lean reports a failing `theorem … := rfl` at the first line of the declaration *including its doc comment*;
+    common.failing_decls attributes such a line to the preceding declaration.  Recompute the names of failing C12_*
+    theorems from the error lines with declaration spans that start at the doc comment."""
+    tail = ck.cov.get('lake_output_tail', '')
+    errs = [int(m.group(1)) for m in re.finditer(r'error: MpVerif/C12/Props\.lean:(\d+):\d+:', tail)]
+    if not errs:
+        return failing
+    lines = open(os.path.join(LEAN, 'MpVerif', 'C12', 'Props.lean')).read().split('\n')
+    starts = []       # (first line of the declaration incl. doc comment, name)
+    doc = None
+    for i, ln in enumerate(lines, 1):
+        if ln.startswith('/--') and doc is None:
+            doc = i
+        m = re.match(r'^\s*(?:theorem|def|example|lemma)\s+([\w.\']+)?', ln)
+        if m:
+            starts.append((doc if doc is not None else i, m.group(1) or 'example@%d' % i))
+            doc = None
+        elif ln.strip() and not ln.startswith('/--') and doc is not None and '-/' in ln and not re.match(r'^\s*(theorem|def|example|lemma)', lines[i] if i < len(lines) else ''):
+            pass
+    names = []
+    for L in errs:
+        cur = None
+        for st, nm in starts:
+            if st <= L:
+                cur = nm
+        if cur and cur not in names:
+            names.append(cur)
+    keep = [f for f in failing if not re.match(r'^C12_\w+$', f.split(' ')[0])]
+    return names + keep
+
+
 def model_arms(cases):
     """which `if`/`match` arms of the Lean model functions (Model.lean) the case stream exercises; computed from the
     case parameters with the same conditions as the model (setOpt, parseOpts, onHeader, resultingNObj, needObj,
@@ -1168,6 +1200,7 @@ def run(ck):
     # 2. proof obligations (selection theorems about the hand model + generated = hand model) and axiom audit
     proof_ok, failing = ck.proof_stage('MpVerif.C12.Props', 'MpVerif/C12/Props.lean', 'C12_',
                                        ['MpVerif/C12/*.lean', 'MpVerif/Gen/ObjFilter.lean'], expect_min=N_THEOREMS)
+    failing = refine_failing(ck, failing)
     if not translator_ok:
         failing = ['translator: ' + (out + err).strip()[-400:]] + failing
         proof_ok = False
